@@ -331,8 +331,9 @@ def gen_mesh3(rng, regime, nmax=5, max_cells=60):
     while n[0] * n[1] * n[2] > max_cells:
         n[rng.randrange(3)] = 1
     if regime == "exact":
-        cell = [Fraction(rng.choice([1, 1, 3, 5]), 2 ** rng.randint(0, 3)) * (k + 1) for k in range(3)]
-        pmin = [Fraction(rng.randint(-40, 40), 2 ** rng.randint(0, 2)) for _ in range(3)]
+        sc = Fraction(2) ** (rng.randint(-30, 20) if rng.random() < 0.3 else 0)   # powers of two keep everything exact
+        cell = [sc * Fraction(rng.choice([1, 1, 3, 5, 7]), 2 ** rng.randint(0, 6)) * (k + 1) for k in range(3)]
+        pmin = [sc * Fraction(rng.randint(-40, 40), 2 ** rng.randint(0, 4)) for _ in range(3)]
         pmax = [a + k * c for a, k, c in zip(pmin, n, cell)]
         p1, p2 = [float(x) for x in pmin], [float(x) for x in pmax]
     else:
@@ -665,7 +666,8 @@ def run_rt(case, obs, fail):
     # ---- the round-trip clause
     wd = 3 if (extend and nv == 1) else nv
     if not np.array_equal(g.mesh.region.pmin, f.mesh.region.pmin) or not np.array_equal(g.mesh.region.pmax, f.mesh.region.pmax):
-        fail(f"region corners {g.mesh.region.pmin}..{g.mesh.region.pmax} instead of {f.mesh.region.pmin}..{f.mesh.region.pmax}")
+        fail(f"region corners {g.mesh.region.pmin.tolist()}..{g.mesh.region.pmax.tolist()} instead of "
+             f"{f.mesh.region.pmin.tolist()}..{f.mesh.region.pmax.tolist()}")
     if list(g.mesh.region.units) != list(f.mesh.region.units):
         fail(f"mesh unit {g.mesh.region.units} instead of {f.mesh.region.units}")
     if list(g.mesh.n) != list(f.mesh.n):
@@ -786,7 +788,7 @@ def run_impl(case):
         obs["tags"] += [f"rep:{case['rep']}", f"nvdim:{min(case['nvdim'], 4)}", f"extend:{case['extend']}",
                         f"vals:{case['vals']}", f"subs:{len(case['subs'])}", f"unit:{'none' if case['unit'] is None else 'set'}",
                         "labels:" + ("default" if not case["labels"] else "underscore" if any("_" in l for l in case["labels"]) else "plain"),
-                        "geom:" + ("dyadic" if all(float(x).is_integer() or (x * 8).is_integer() for x in case["mesh"]["p1"]) else "float")]
+                        "geom:" + ("dyadic" if all(Fraction(x).denominator <= 2 ** 40 and Fraction(x).denominator & (Fraction(x).denominator - 1) == 0 and abs(Fraction(x).numerator) < 2 ** 20 for x in case["mesh"]["p1"]) else "float")]
         if kind == "trunc_rt":
             obs["nontrivial"] = True
     elif kind == "foreign":
@@ -1050,6 +1052,7 @@ def model_requests(case, obs):
                              tol=Q(v["tolerance_factor"])) for k, v in obs["side"].items()]
             reqs.append(dict(op="read", file=obs["file"], side=side))
             reqs.append(dict(op="refread", file=obs["file"]))
+            reqs.append(dict(op="savesub", mesh=obs["field"]["mesh"]))
             if "tfile" in obs:
                 reqs.append(dict(op="read", file=obs["tfile"], side=None))
         return reqs
@@ -1194,8 +1197,14 @@ def compare(case, obs, rs):
                     dis.append(f"independent reader ok vs model reference reader {rs[2]}")
                 else:
                     cmp_content("reference reader", obs["content"], rs[2]["ok"], dis, exact=(case["rep"] != "txt"))
+            ms = [[e["name"], [F(x) for x in e["pmin"]], [F(x) for x in e["pmax"]], e["dims"], e["units"], F(e["tol"])]
+                  for e in rs[3]["ok"]]
+            gs = [[k, [Fraction(x) for x in v["pmin"]], [Fraction(x) for x in v["pmax"]], v["dims"], v["units"],
+                   Fraction(v["tolerance_factor"])] for k, v in (obs["side"] or {}).items()]
+            if ms != gs:
+                dis.append(f"side-car file: {obs['side']} vs model {rs[3]['ok']}")
             if "tfile" in obs:
-                st2 = "ok" if "ok" in rs[3] else "err"
+                st2 = "ok" if "ok" in rs[4] else "err"
                 if st2 != obs["tread"]:
                     dis.append(f"truncated file: from_file {obs['tread']} vs model {st2}")
     elif kind == "foreign":
